@@ -71,6 +71,7 @@ def build(spec, wd):
         f3 = float(rng.normal(0.0, 1.0))
         rows.append((i, tgt, 1 + i // 2 if i % 7 else 1 + i // 3, f1, f2, f3))
     d = {"SpecId": ["r%d" % r[0] for r in rows], "Label": [1 if r[1] else -1 for r in rows], "ScanNr": [r[2] for r in rows],
+         "filename": ["run%d.mzML" % (r[2] % 3) for r in rows],      # a string-valued spectrum-key column (its hash() depends on PYTHONHASHSEED)
          "ExpMass": [500.0 + (r[2] % 11) for r in rows], "f1": [r[3] for r in rows], "f2": [r[4] for r in rows],
          "f3": [r[5] for r in rows]}
     if tpeps:
@@ -79,7 +80,8 @@ def build(spec, wd):
         d["Peptide"] = ["K.PEP%dK.A" % int(rng.integers(0, n // 3)) for r in rows]
     d["Proteins"] = ["prot_r%d" % r[0] for r in rows]
     df = pd.DataFrame(d)
-    ds = mk.make_dataset(df, wd / ("in." + spec.get("fmt", "pin")), feature_cols=["f1", "f2", "f3"])
+    ds = mk.make_dataset(df, wd / ("in." + spec.get("fmt", "pin")), feature_cols=["f1", "f2", "f3"],
+                         key_cols=("filename", "ScanNr", "ExpMass"))
     return ds, proteins
 
 
